@@ -374,6 +374,44 @@ def strip_tail_continue(stmts):
     return rec(stmts)
 
 
+def strip_tail_return(stmts):
+    """in a procedure (every `return` is bare or `return None`, no generator) a return in tail position is a no-op"""
+    def own(block):
+        for s in block:
+            if isinstance(s, (ast.FunctionDef, ast.AsyncFunctionDef, ast.ClassDef, ast.Lambda)):
+                continue
+            yield s
+            for f_, v in ast.iter_fields(s):
+                if isinstance(v, list) and v and isinstance(v[0], ast.AST):
+                    yield from own(v)
+                elif isinstance(v, ast.AST):
+                    yield from own([v])
+    nodes = list(own(stmts))
+    if any(isinstance(n, (ast.Yield, ast.YieldFrom)) for n in nodes):
+        return stmts
+    if any(isinstance(n, ast.Return) and n.value is not None and not (isinstance(n.value, ast.Constant) and n.value.value is None) for n in nodes):
+        return stmts
+
+    def strip(block):
+        if not block:
+            return block
+        last = block[-1]
+        if isinstance(last, ast.Return):
+            return strip(block[:-1]) or [ast.copy_location(ast.Pass(), last)]
+        if isinstance(last, ast.If):
+            last.body = strip(last.body)
+            if last.orelse:
+                last.orelse = strip(last.orelse)
+                if _is_pass(last.orelse):
+                    last.orelse = []
+            if _is_pass(last.body) and not last.orelse:
+                # `if c: return` at the very end: only the test is left (kept when it may have effects)
+                if norm.is_pure(last.test):
+                    return strip(block[:-1]) or [ast.copy_location(ast.Pass(), last)]
+        return block
+    return strip(list(stmts))
+
+
 # ---------------------------------------------------------------------------------------
 # 3  helper inlining with single-exit conversion of the callee
 def _contains(s, types) -> bool:
@@ -803,6 +841,32 @@ class Inliner:
             s.test = H().visit(s.test)
         return pre
 
+    def _comp_as_loop(self, s, d, stack):
+        if not (isinstance(s, ast.Assign) and len(s.targets) == 1 and isinstance(s.value, ast.ListComp) and d > 0):
+            return None
+        tgt, comp = s.targets[0], s.value
+        if not (isinstance(tgt, ast.Name) or norm._attr_chain(tgt) is not None) or len(comp.generators) != 1 or comp.generators[0].is_async:
+            return None
+        g = comp.generators[0]
+        calls = [n for n in ast.walk(comp.elt) if isinstance(n, ast.Call) and self.lookup(n) is not None]
+        if not calls or any(isinstance(n, (ast.ListComp, ast.SetComp, ast.DictComp, ast.GeneratorExp, ast.Lambda, ast.IfExp, ast.BoolOp)) for n in ast.walk(comp.elt)):
+            return None
+        if any(isinstance(n, ast.Call) and self.lookup(n) is not None for x in [g.iter] + g.ifs for n in ast.walk(x)):
+            return None
+        tt = u(tgt)
+        if any(u(n) == tt for x in (comp.elt, g.iter, *g.ifs) for n in ast.walk(x) if isinstance(n, (ast.Name, ast.Attribute))):
+            return None
+        app = ast.Expr(value=ast.Call(func=ast.Attribute(value=copy.deepcopy(tgt), attr="append", ctx=ast.Load()), args=[comp.elt], keywords=[]))
+        for n in ast.walk(app.value.func):
+            if hasattr(n, "ctx"):
+                n.ctx = ast.Load()
+        body = [app]
+        for t in reversed(g.ifs):
+            body = [ast.If(test=t, body=body, orelse=[])]
+        loop = ast.For(target=g.target, iter=g.iter, body=body, orelse=[])
+        init = ast.Assign(targets=[tgt], value=ast.List(elts=[], ctx=ast.Load()))
+        return [ast.fix_missing_locations(ast.copy_location(x, s)) for x in (init, loop)]
+
     def rec(self, stmts, d, stack):
         out = []
         for s in stmts:
@@ -817,6 +881,12 @@ class Inliner:
                 for fld in ("test", "iter", "subject"):
                     if hasattr(s, fld):
                         setattr(s, fld, self.inline_exprs(getattr(s, fld), d, stack))
+            # 1b a comprehension whose element calls a helper that is not an expression (several statements, effects in
+            #    between) is the accumulate loop it abbreviates: the helper's statements then become the loop body
+            loop = self._comp_as_loop(s, d, stack)
+            if loop is not None:
+                out += self.rec(loop, d, stack)
+                continue
             # 2 other helpers nested in the statement are hoisted into temporaries
             pre = self.hoist(s, d, stack)
             if pre:
@@ -874,7 +944,76 @@ def _append_fallthrough(body, stmt):
 
 # ---------------------------------------------------------------------------------------
 # 8 / 9  expression level
+def _is_count(e) -> bool:
+    """an integer count: len(..), integer literals and +,-,* of those (no float, string or list can hide in it)"""
+    if isinstance(e, ast.Constant):
+        return type(e.value) is int
+    if isinstance(e, ast.Call):
+        return isinstance(e.func, ast.Name) and e.func.id == "len"
+    if isinstance(e, ast.BinOp):
+        if isinstance(e.op, (ast.Add, ast.Sub)):
+            # one side a count makes the other a number too (len(x) + y raises unless y is numeric); floats are not used as counts here
+            return _is_count(e.left) or _is_count(e.right)
+        return isinstance(e.op, ast.Mult) and _is_count(e.left) and _is_count(e.right)
+    return False
+
+
+def _drop_unused_enumerate(comp) -> None:
+    """for i, x in enumerate(X) with i read nowhere in the comprehension  ->  for x in X"""
+    for k, g in enumerate(comp.generators):
+        it = g.iter
+        if not (isinstance(it, ast.Call) and isinstance(it.func, ast.Name) and it.func.id == "enumerate" and len(it.args) == 1 and not it.keywords
+                and isinstance(g.target, ast.Tuple) and len(g.target.elts) == 2 and isinstance(g.target.elts[0], ast.Name)):
+            continue
+        i = g.target.elts[0].id
+        parts = list(g.ifs) + [x for g2 in comp.generators[k + 1:] for x in [g2.iter, *g2.ifs]] + [getattr(comp, f) for f in ("elt", "key", "value") if hasattr(comp, f)]
+        if any(isinstance(n, ast.Name) and n.id == i for e in parts for n in ast.walk(e)):
+            continue
+        if any(isinstance(n, ast.Name) and n.id == i for n in ast.walk(g.target.elts[1])):
+            continue
+        g.target, g.iter = g.target.elts[1], it.args[0]
+
+
+def _never_none_elt(comp) -> bool:
+    """the comprehension's element is certainly not None: a display, a number / string, or the index bound by enumerate"""
+    e = comp.elt
+    if isinstance(e, (ast.Tuple, ast.List, ast.Dict, ast.Set, ast.JoinedStr)):
+        return True
+    if isinstance(e, ast.Constant):
+        return e.value is not None
+    if isinstance(e, ast.Name):
+        for g in comp.generators:
+            it = g.iter
+            if isinstance(it, ast.Call) and isinstance(it.func, ast.Name) and isinstance(g.target, ast.Tuple) and g.target.elts and isinstance(g.target.elts[0], ast.Name):
+                if it.func.id == "enumerate" and g.target.elts[0].id == e.id:
+                    return True
+            if isinstance(it, ast.Call) and isinstance(it.func, ast.Name) and it.func.id == "range" and isinstance(g.target, ast.Name) and g.target.id == e.id:
+                return True
+    return False
+
+
 class _ExprNorm(ast.NodeTransformer):
+    def visit_Compare(self, node):
+        self.generic_visit(node)
+        # next((e for .. if C), None) is not None  ->  any(C for ..)     (e never None: the default is returned iff nothing passes the filter)
+        if len(node.ops) == 1 and isinstance(node.ops[0], (ast.Is, ast.IsNot)) and isinstance(node.comparators[0], ast.Constant) and node.comparators[0].value is None:
+            c = node.left
+            if isinstance(c, ast.Call) and isinstance(c.func, ast.Name) and c.func.id == "next" and len(c.args) == 2 and not c.keywords \
+                    and isinstance(c.args[1], ast.Constant) and c.args[1].value is None and isinstance(c.args[0], ast.GeneratorExp) and _never_none_elt(c.args[0]):
+                g = copy.deepcopy(c.args[0])
+                last = g.generators[-1]
+                if last.ifs:
+                    test = last.ifs[0] if len(last.ifs) == 1 else ast.BoolOp(op=ast.And(), values=list(last.ifs))
+                    last.ifs = []
+                else:
+                    test = ast.Constant(True)
+                g.elt = test
+                found = self.visit(ast.copy_location(ast.Call(func=ast.Name(id="any", ctx=ast.Load()), args=[g], keywords=[]), node))
+                if isinstance(node.ops[0], ast.IsNot):
+                    return found
+                return ast.copy_location(ast.UnaryOp(op=ast.Not(), operand=found), node)
+        return node
+
     def visit_Call(self, node):
         self.generic_visit(node)
         f = u(node.func)
@@ -899,6 +1038,13 @@ class _ExprNorm(ast.NodeTransformer):
                 and isinstance(node.args[0], ast.Constant) and type(node.args[0].value) is int and node.args[0].value >= 1:
             return ast.copy_location(ast.Subscript(value=ast.Call(func=ast.Attribute(value=node.func.value, attr="groups", ctx=ast.Load()), args=[], keywords=[]),
                                                    slice=ast.Constant(node.args[0].value - 1), ctx=ast.Load()), node)
+        # any(not X for ..) -> not all(X for ..)   ;   all(not X for ..) -> not any(X for ..)
+        if f in ("any", "all") and len(node.args) == 1 and not node.keywords and isinstance(node.args[0], (ast.GeneratorExp, ast.ListComp)) \
+                and isinstance(node.args[0].elt, ast.UnaryOp) and isinstance(node.args[0].elt.op, ast.Not):
+            g = node.args[0]
+            g.elt = g.elt.operand
+            dual = ast.Call(func=ast.Name(id="all" if f == "any" else "any", ctx=ast.Load()), args=[g], keywords=[])
+            return ast.copy_location(ast.UnaryOp(op=ast.Not(), operand=self.visit_Call(ast.copy_location(dual, node))), node)
         # any(v == E for v in X) -> E in X   (membership is `==` against each element in turn)
         if f == "any" and len(node.args) == 1 and not node.keywords and isinstance(node.args[0], (ast.GeneratorExp, ast.ListComp)):
             g = node.args[0]
@@ -1004,6 +1150,13 @@ class _ExprNorm(ast.NodeTransformer):
             v_ = f_() if f_ else None
             if v_ is not None:
                 return ast.copy_location(ast.Constant(v_), node)
+        # counts re-associate to the left: a + (b - c) -> a + b - c ; a + (b + c) -> a + b + c ; a - (b + c) -> a - b - c ; a - (b - c) -> a - b + c
+        if isinstance(node.op, (ast.Add, ast.Sub)) and isinstance(node.right, ast.BinOp) and isinstance(node.right.op, (ast.Add, ast.Sub)) \
+                and norm.is_scalar(node.right) and _is_count(node):
+            same = isinstance(node.op, ast.Add)
+            inner = type(node.right.op)() if same else (ast.Sub() if isinstance(node.right.op, ast.Add) else ast.Add())
+            left = self.visit_BinOp(ast.copy_location(ast.BinOp(left=node.left, op=node.op, right=node.right.left), node))
+            return self.visit_BinOp(ast.copy_location(ast.BinOp(left=left, op=inner, right=node.right.right), node))
         # [a] + b  -> [a, *b]   (b a list expression);  [..] + [..] -> [.., ..]
         if isinstance(node.op, ast.Add) and isinstance(node.left, ast.List):
             if isinstance(node.right, ast.List):
@@ -1052,6 +1205,7 @@ class _ExprNorm(ast.NodeTransformer):
         """(f(v) for v in (g(w) for w in S if C) if D)  ->  (f(g(w)) for w in S if C if D[g(w)])   for a pure inner comprehension:
         a pipeline of generators / lists and the fused comprehension yield the same elements in the same order"""
         self.generic_visit(node)
+        _drop_unused_enumerate(node)
         for g_ in node.generators:
             # `if a and b` filters like `if a if b`
             flat = []
@@ -1740,6 +1894,7 @@ class Canon:
         b = or_default(b)
         b = nest_tails(b)
         b = strip_tail_continue(b)
+        b = strip_tail_return(b)
         b = norm.normalise_loops(b)
         from .nf import _generator_to_genexp
         b = _generator_to_genexp(b)
@@ -1754,7 +1909,7 @@ class Canon:
             b2 = norm.unroll_literal_loops(norm.fuse_for_over_comp(b, pure_calls=_PURE_EXT))
             if ast.dump(ast.Module(body=b2, type_ignores=[])) != ast.dump(ast.Module(body=b, type_ignores=[])):
                 b = _drop_dead_temps(norm.forward_subst(b2, pure_calls=_PURE_EXT))
-        b = expr_norm(b)
+        b = polarity(expr_norm(b))          # (expression idioms may have produced `not all(..)` tests)
         for s in b:
             ast.fix_missing_locations(s)
         if fn.name != "_module_level_":
